@@ -160,12 +160,31 @@ theorem empty_is_invalid (hn : w.n = 0) (h : Reachable w s) : s = init w ∧ s.o
 theorem validator_sound {l : Label} {s' : State} (h : Reachable w s) (hn : next w s l = some s') : Reachable w s' :=
   .step h (next_sound hn)
 
-/-- **no strategy step crashes** is FALSE for the code as it is (defect D2): `AllTuple<FirstFail>::Consume` runs
-    `std::forward<Result>(result).Value()` on a second failing input, after the first failure took the flag:
-    `std::bad_variant_access` inside a noexcept function ⇒ `std::terminate`.
-    Witness: `WhenAll(Future<int>, Future<double>)`, both inputs fail, input 0 consumed first. -/
-theorem no_crash_violated_witness :
-    ∃ s, Reachable ⟨.allTuple true, [.err 0, .err 1]⟩ s ∧ s.crashed = true ∧ s.outSet = [.one (.err 0)] := by
+/-- **no strategy step crashes**, for every strategy: no consumption ever reaches a throwing state, no destructor throws
+    (`Retire().Value()` in `~All<FirstFail>` only runs when no input failed; `~Any<FirstFail>` always finds a saved failure;
+    a failing consumption that lost the flag does nothing more). -/
+theorem no_crash (hwf : w.wf) (h : Reachable w s) :
+    s.crashed = false ∧ ∀ i, s.pc i ≠ .boom ∧ s.pc i ≠ .dboom := by
+  have hB := invb_reachable hwf h
+  exact ⟨hB.not_crashed, fun i => ⟨hB.no_boom i, hB.no_dboom i⟩⟩
+
+/- Defect D2 of the pinned tree, fixed by /repo 2b9a400; exhibited by this check before the fix: scenario
+   `when kind=alltuple policy=firstfail n=2 pattern=E,E shape=u,u form=static api=WhenAll(u0,u1)`, every schedule
+   (`AllTuple<FirstFail>::Consume` ran `std::forward<Result>(result).Value()` on a second failing input, after the first
+   failure took the flag: `std::bad_variant_access` inside a noexcept function ⇒ `std::terminate`).  The model then had
+   `lose (.allTuple true) = .boom` and this file proved
+
+     theorem no_crash_violated_witness :
+         ∃ s, Reachable ⟨.allTuple true, [.err 0, .err 1]⟩ s ∧ s.crashed = true ∧ s.outSet = [.one (.err 0)]
+     -- run: regSet 0 true, regSet 1 true, fire 0, retire 0, loadFlag 0 false, xchgFlag 0 false, setOut 0 (one (err 0)),
+     --      fire 1, retire 1, loadFlag 1 true, crash 1
+
+   together with `no_crash_partial` (every strategy except the tuple form with FirstFail). -/
+
+/-- the tuple form with FirstFail and two failing inputs (the former D2 scenario): the second failure loses the flag,
+    stores nothing, and the run completes with the first failure as output -/
+example : ∃ s, Reachable ⟨.allTuple true, [.err 0, .err 1]⟩ s ∧ s.crashed = false ∧ s.outSet = [.one (.err 0)] ∧
+    s.pc 0 = .done ∧ s.pc 1 = .done ∧ s.released 0 = 1 ∧ s.released 1 = 1 := by
   let w : Workload := ⟨.allTuple true, [.err 0, .err 1]⟩
   have h0 : Reachable w (init w) := .init
   have h1 := validator_sound h0 (l := .regSet 0 true) (s' := _) rfl
@@ -178,23 +197,9 @@ theorem no_crash_violated_witness :
   have h8 := validator_sound h7 (l := .fire 1) (s' := _) rfl
   have h9 := validator_sound h8 (l := .retire 1) (s' := _) rfl
   have h10 := validator_sound h9 (l := .loadFlag 1 true) (s' := _) rfl
-  have h11 := validator_sound h10 (l := .crash 1) (s' := _) rfl
-  exact ⟨_, h11, rfl, rfl⟩
-
-/-- the full statement would be `Reachable w s → s.crashed = false`; it holds for every strategy except the tuple form
-    with FirstFail: there no consumption ever reaches a throwing state, no destructor throws (`Retire().Value()` in
-    `~All<FirstFail>` only runs when no input failed; `~Any<FirstFail>` always finds a saved failure) -/
-theorem no_crash_partial (hwf : w.wf) (h : Reachable w s) (hs : w.strat ≠ .allTuple true) :
-    s.crashed = false ∧ ∀ i, s.pc i ≠ .boom ∧ s.pc i ≠ .dboom := by
-  have hB := invb_reachable hwf h
-  refine ⟨?_, fun i => ⟨fun hp => hs (hB.boom_tuple i hp), hB.no_dboom i⟩⟩
-  cases hc : s.crashed with
-  | false => rfl
-  | true => exact absurd (hB.crashed_tuple hc) hs
-
-/-- even the tuple form never throws from a destructor, and a crash there needs the flag to be taken already -/
-theorem tuple_firstfail_crash_only_in_consume (hwf : w.wf) (h : Reachable w s) : ∀ i, s.pc i ≠ .dboom :=
-  (invb_reachable hwf h).no_dboom
+  have h11 := validator_sound h10 (l := .dec 1 2) (s' := _) rfl
+  have h12 := validator_sound h11 (l := .dec 0 1) (s' := _) rfl
+  exact ⟨_, h12, rfl, rfl, rfl, rfl, rfl, rfl⟩
 
 /-! ### non-vacuity: concrete workloads reach the interesting states -/
 
